@@ -44,9 +44,13 @@ pub(crate) fn run() {
                 // only the language server's own grammar parser (step 1 of `analyze`)
                 match std::panic::catch_unwind(|| {
                     let mut g = crate::parol_ls_grammar::ParolLsGrammar::new();
-                    crate::parol_ls_parser::parse(&text, "input.par", &mut g).is_ok()
+                    match crate::parol_ls_parser::parse(&text, "input.par", &mut g) {
+                        Ok(_) => "ok",
+                        Err(parol_runtime::ParolError::UserError(_)) => "semantic",
+                        Err(_) => "syntax",
+                    }
                 }) {
-                    Ok(ok) => json!({"ok": ok}),
+                    Ok(kind) => json!({"ok": kind == "ok", "kind": kind}),
                     Err(_) => json!({"panic": true}),
                 }
             }
